@@ -1871,9 +1871,6 @@ func c21Excluded(cs c21Case, d *c21PE) string {
 	if cs.quoted && isList && testOp && kind != 's' {
 		return "C21-quoted-list-test-op"
 	}
-	if !cs.quoted && isList && testOp && (kind == 'i' || kind == 'p') && len(elems) == 0 && (d.op == "-" || d.op == "+" || d.op == "=" || d.op == "?") {
-		return "C21-empty-list-is-unset"
-	}
 	if isList && listVar && d.kind == 'X' && d.op == "@" {
 		return "C21-list-transform"
 	}
